@@ -832,6 +832,7 @@ func (s *Netceptor) expireSeenUpdates() {
 			for id := range s.seenUpdates {
 				if s.seenUpdates[id].Before(thresholdTime) {
 					delete(s.seenUpdates, id)
+					verifhook.Emit(s.vn, "seen_expire", "id", id)
 				}
 			}
 			s.seenUpdatesLock.Unlock()
